@@ -91,6 +91,13 @@ BASES = [
          {'op': 'send_binary', 'hex': (b'T1-1-' + _FAR).hex()}],
         [{'op': 'send_binary', 'hex': (b'T2-0-' + _FAR[::-1] + _FAR).hex()}]],
      'compress': True, 'cbits': 9},
+    # an incompressible payload of 2 KiB, then messages repeating parts of
+    # it: whatever the compressor has consumed must be on the wire
+    {'name': 'incompressible_then_repeat', 'threads': [
+        [{'op': 'send_binary', 'hex': _FAR[:1280].hex() + (b'T1-0-').hex()},
+         {'op': 'send_binary', 'hex': (b'T1-1-' + _FAR[100:700]).hex()}],
+        [{'op': 'send_binary', 'hex': (b'T2-0-' + _FAR[640:1280]).hex()}]],
+     'compress': True},
     {'name': 'loop_echo_vs_sender', 'threads': [[_txt(1, 0), _txt(1, 1)]],
      'loop': ['text', 'ping'], 'app_echo': True},
 ]
